@@ -48,6 +48,7 @@ func (c *Ctx) implementersOf(pkgRel string, iface *types.Interface) []*types.Nam
 func c06(c *Ctx) {
 	c.singleIDHeader("R06.7")
 	defer c06exactNoChangeTests(c)
+	defer c06updatesConserved(c)
 	P, R := c.P, c.R
 	R.Explain("R06.8", "a remove followed by a re-add reaches the session in that order: in State.popResponders every path of the *expunge edge (permitExpunge=false) records the message id in the skip set, whatever the snapshot holds, so the EXISTS of the re-add waits behind the held-back EXPUNGE; released early it is applied first and the later EXPUNGE then removes the message the connector re-added (shared with R05.2).")
 	if pop := c.fn("R06.8", "internal/state.(*State).popResponders"); pop != nil {
@@ -861,4 +862,37 @@ func c06exactNoChangeTests(c *Ctx) {
 		}
 	}
 	R.Min("R06.9", "functions below user.apply", n, 15)
+}
+
+// c06updatesConserved (R06.10): applying an update announces every part of the change.
+func c06updatesConserved(c *Ctx) {
+	P, R := c.P, c.R
+	R.Explain("R06.10", "the whole change is announced: in the functions below user.apply every list of state updates returned by a call is consumed - appended, passed on, stored or returned - on every path to a success return, and when it is obtained inside a loop, before the loop comes round again (same rule as R02.1, restricted to the update appliers).  An update that touches several mailboxes but forwards only the last mailbox's announcements leaves the sessions of the other mailboxes with a message the connector deleted.")
+	apply := c.fn("R06.10", "internal/backend.(*user).apply")
+	if apply == nil {
+		return
+	}
+	n := 0
+	for _, f := range c.withPackageHelpers(apply, "internal/backend", 3) {
+		for _, cs := range engine.Calls(f) {
+			call, ok := cs.Instr.(*ssa.Call)
+			if !ok {
+				continue
+			}
+			tup, isTup := call.Type().(*types.Tuple)
+			if !isTup || call.Referrers() == nil {
+				continue
+			}
+			for _, r := range *call.Referrers() {
+				ex, isEx := r.(*ssa.Extract)
+				if !isEx || ex.Index >= tup.Len() || !isUpdateType(tup.At(ex.Index).Type()) {
+					continue
+				}
+				n++
+				esc := updatesDroppedOnPath(f, ex)
+				R.Check(!esc.IsValid(), "R06.10", fmtf("%s|%s#%d", c.name(f), calleeLabel(call), ex.Index), P.Pos(call.Pos()), "consumed on every path", "the state updates returned by "+calleeLabel(call)+" can be lost ("+P.Pos(esc)+"): part of the change the update describes is never announced")
+			}
+		}
+	}
+	R.Min("R06.10", "update-returning calls below user.apply", n, 8)
 }
